@@ -56,8 +56,11 @@ class Loader(Generic[T]):
             state_dict (Dict[str, Any]): The state_dict to load. Should be generated from a call to state_dict().
         """
         self._next_iter_state_dict = state_dict
-        # An iterator created only to answer state_dict() must not swallow the state loaded after it
-        self._iter_for_state_dict = False
+        # An iterator created only to answer state_dict() must not swallow the state loaded after it,
+        # nor keep answering state_dict() with its own (pre-load) state
+        if self._iter_for_state_dict:
+            self._iter_for_state_dict = False
+            self._it = None
 
     def state_dict(self) -> Dict[str, Any]:
         """Returns a state_dict which can be passed to load_state_dict() in the future to
